@@ -2,7 +2,7 @@
    Property theorems only; proofs live in Bac.CalendarFacts (about the AST-translated matchers of
    BacGen.ScheduleFns) and Bac.ScheduleFacts (about the hand model Bac.ScheduleEval of
    LocalScheduleInterpreter.eval / process_task, with the two `fix:` commits of the worktree). *)
-From Bac Require Import Base PyRt Calendar CalendarFacts ScheduleEval ScheduleSpec ScheduleFacts.
+From Bac Require Import Base PyRt Calendar CalendarFacts ScheduleEval ScheduleSpec ScheduleFacts ScheduleTz ScheduleTzDays ScheduleTzFacts.
 From BacGen Require Import ScheduleFns.
 Open Scope Z_scope.
 
@@ -115,6 +115,64 @@ Theorem C20_next_date_valid : forall d, valid_date d ->
   (let '(y, m, dd, _) := d in (y, m, dd) <> (254, 12, 31)) -> valid_date (next_date d).
 Proof. exact next_date_valid. Qed.
 Print Assumptions C20_next_date_valid.
+
+(* ---- the wall clock in zones whose UTC offset changes (daylight saving): ScheduleTz models
+   Date.now/Time.now (localtime_z) and datetime_to_time = time.mktime(..., isdst=-1) (datetime_to_time_z)
+   for ANY offset function that takes two values; tied to CPython/libc by the `now-z`, `dtt-z`, `run-z`,
+   `civil` correspondence cases under POSIX DST rules.  This generalises C20_arm_reading (constant offset). *)
+
+(* datetime_to_time applied to the local reading of any instant of 1900..2154 returns an instant with
+   exactly that local reading: ScheduleSpec.dtt_requirement for every two-offset zone *)
+Theorem C20_arm_reading_any_zone : forall off o1 o2 e, two_offsets off o1 o2 -> in_years off e ->
+  exists a, datetime_to_time_z off o1 o2 (fst (localtime_z off e)) (snd (localtime_z off e)) = Ok a /\
+            localtime_z off a = localtime_z off e.
+Proof. exact dtt_reads_back. Qed.
+Print Assumptions C20_arm_reading_any_zone.
+
+(* one firing of process_task at any instant in any two-offset zone: never raises, shows the value
+   prescribed for the LOCAL date and time, and arms the timer for the instant whose local wall clock
+   is the reported transition (whenever an instant with that reading exists; strictly later when the
+   offset is the same at both instants) *)
+Theorem C20_step_any_zone : forall off o1 o2 c e pv, two_offsets off o1 o2 -> in_years off e ->
+  wf_sched c (fst (localtime_z off e)) -> good_sched c ->
+  exists pv' a n, let d := fst (localtime_z off e) in let t := snd (localtime_z off e) in
+    step_z off o1 o2 c e pv = Ok (pv', a) /\
+    (in_effect c d -> spec_value c d t pv') /\ (~ in_effect c d -> pv' = pv) /\
+    t4_lt t n = true /\ arm_ok n /\ a = mktime_z off o1 o2 (wall_of d n) /\
+    ((exists e', wall off e' = wall_of d n) -> wall off a = wall_of d n) /\
+    (wall off a = wall_of d n -> off a = off e -> e < a).
+Proof. exact step_z_rearms. Qed.
+Print Assumptions C20_step_any_zone.
+
+(* the calendar behind it, swept over all 93137 days of 1900-01-01..2154-12-31: day numbers and civil
+   dates are inverse, every day number is a valid BACnet date, consecutive day numbers are successor dates *)
+Theorem C20_day_numbers : forall z, day_in_range z ->
+  valid_date (date_of_days z) /\ date_of_days (z + 1) = next_date (date_of_days z) /\
+  (let '(y, m, d) := civil_from_days z in days_from_civil y m d = z).
+Proof.
+  intros z H. split; [now apply date_of_days_valid|]. split; [now apply date_of_days_next | now apply civil_roundtrip].
+Qed.
+Print Assumptions C20_day_numbers.
+
+(* a conversion through the STANDARD offset only (calendar.timegm(tuple) + time.timezone) does not meet
+   the requirement: witness EST5EDT, 2024-07-01 08:00:00 local is converted to an instant reading 09:00:00 *)
+Theorem C20_arm_std_offset_only_refuted : exists off o1 o2 e, two_offsets off o1 o2 /\ in_years off e /\
+  localtime_z off (dtt_std_only o1 (fst (localtime_z off e)) (snd (localtime_z off e))) <> localtime_z off e.
+Proof. exact dtt_std_only_refuted. Qed.
+Print Assumptions C20_arm_std_offset_only_refuted.
+
+(* non-vacuity: the zone EST5EDT of 2024 has two offsets; summer reading, skipped hour (02:30 -> 03:30 EDT),
+   repeated hour (01:30 -> the daylight reading), 24:00 -> next local midnight *)
+Example C20_zone_example :
+  two_offsets est5edt_2024 (-18000) (-14400) /\ in_years est5edt_2024 1719835200 /\
+  localtime_z est5edt_2024 1719835200 = ((124, 7, 1, 1), (8, 0, 0, 0)) /\
+  datetime_to_time_z est5edt_2024 (-18000) (-14400) (124, 7, 1, 1) (17, 0, 0, 0) = Ok 1719867600 /\
+  localtime_z est5edt_2024 1719867600 = ((124, 7, 1, 1), (17, 0, 0, 0)) /\
+  step_z est5edt_2024 (-18000) (-14400) ex_sched 1719835200 99 = Ok (3, 1719867600).
+Proof.
+  split; [exact est5edt_2024_two|]. split; [unfold in_years, day_in_range, day_lo, day_hi; vm_compute; split; discriminate|].
+  vm_compute. repeat split; reflexivity.
+Qed.
 
 (* non-vacuity: a concrete schedule (week-and-day exception, calendar reference with an
    odd-month-last-day pattern and a range, weekly list, open-ended effective period) meets
